@@ -1160,7 +1160,9 @@ def rules(tier):
             # C05-ca: second pass without --prefixcount: the raw '6 password' line is segmented
             ('C05.R17', _shared_rule('c19', 'r1_three_passes')),
             # C05-da: found_providers, found_emails = email_detection(..) - the e-mail and provider counters swap contents
-            ('C05.R18', _shared_rule('plumbing', 'unpack_order'))]
+            ('C05.R18', _shared_rule('plumbing', 'unpack_order')),
+            # mutation sweep: counters are exactly the tallies of the segments
+            ('C05.R19', _shared_rule('c06', 'r21_unit_tallies'))]
 
 
 META = {
